@@ -69,6 +69,45 @@ def run(ctx: Ctx):
     names_resolve(ctx, "C05-RN")
     from .common_node import received_chunks_are_immutable_bytes
     received_chunks_are_immutable_bytes(ctx, "C05-R9")
+    # ---------------- R11 what the framing hands to the decoder is decoded --------------------------
+    ctx.rule("C05-R11", "decoding a well-formed frame does not depend on the interpreter's recursion "
+                        "limit; the I/O loop can watch every descriptor it is given", floor=2)
+    um = model.cls("message._base", "UndefinedMessage")
+    rec_f = um.methods.get("_assign_attr_values")
+    cons11 = "UndefinedMessage._assign_attr_values:recursion-guarded"
+    ctx.inst(cons11, rule="C05-R11")
+    if rec_f is not None:
+        ctx.use(rec_f)
+        par_ = A.parents(rec_f.node)
+        for c in A.walk_no_nested(rec_f.node):
+            if isinstance(c, ast.Call) and A.call_name(c) == f"self.{rec_f.name}":
+                cur, ok = c, False
+                while cur in par_:
+                    up = par_[cur]
+                    if isinstance(up, ast.Try) and any(cur is b for b in up.body) and any(
+                            h.type is None or "RecursionError" in ast.unparse(h.type)
+                            or ast.unparse(h.type) in ("Exception", "BaseException", "RuntimeError")
+                            for h in up.handlers):
+                        ok = True
+                    cur = up
+                if not ok:
+                    ctx.fail(cons11, rec_f.loc(c), "UndefinedMessage recurses once per Grouped level without a "
+                             "guard: a well-formed frame of an unknown command whose groups nest deeper than "
+                             "the recursion limit makes Message.from_bytes raise RecursionError - the reader "
+                             "drops the frame as garbage, the message is never delivered", rule="C05-R11")
+    nc_ = model.cls("node.node", "Node")
+    hc_ = nc_.methods.get("_handle_connections")
+    cons12 = "_handle_connections:select#descriptor-range"
+    ctx.inst(cons12, rule="C05-R11")
+    src_hc = ast.unparse(hc_.node) if hc_ is not None else ""
+    node_src = ast.unparse(nc_.node)
+    if "select.select" in src_hc and not any(k in node_src for k in ("FD_SETSIZE", "select.poll", "selectors.", ">= 1024")):
+        sel = [c for c in ast.walk(hc_.node) if isinstance(c, ast.Call) and A.call_name(c) == "select.select"]
+        ctx.fail(cons12, hc_.loc(sel[0]) if sel else hc_.loc(),
+                 "the I/O loop uses select.select() and accepts sockets whatever their descriptor number: once "
+                 "one socket has descriptor >= 1024 (FD_SETSIZE) every select() raises ValueError, which the "
+                 "loop swallows and retries without a pause - nothing is read, written or accepted on ANY "
+                 "connection while that socket lives (findings/audit3/C05-1)", rule="C05-R11")
     # "nor stop servicing the connection silently": nothing escapes the reader's thread function
     from . import c14 as _c14
     ctx.include(_c14.run, {"C14-R1"}, "C05-R10",
